@@ -232,4 +232,32 @@ CLAIMS = {
              "cancellation or shutdown. Semantic equivalence over all expressions and freshness over all histories are not decided.",
         technique="table oracle against CPython operator semantics; evaluator contract; def-use flow of subscription lists on the CFG",
         ref="4/C16"),
+    "C17": dict(
+        text="Static analysis of structural necessary conditions of show timing and clean-up: each step is scheduled with "
+             "call_at at an accumulator that is advanced by exactly duration(current step)/speed (no rounding, no clock read, "
+             "no relative scheduling on the step path) before scheduling; the accumulator is re-based on the clock only in "
+             "resume/advance/step_back; sync start arithmetic is in consistent units; finite loops decrement once per wrap, "
+             "infinite loops wrap, the show ends exactly at its end with no loops left, one step per run; every player a step "
+             "used is remembered and steps are played under the show's own context/priority/tokens/time; stop() is "
+             "idempotent, cancels the pending step, clears the show's context in every remembered player on every path and "
+             "runs before completion events; pause/advance/step_back cancel the pending step first; LightPlayer colours under "
+             "key=full_context and clear_context/remove use the same key and record, the light's removal scans are left early "
+             "only at the key; ShowPlayer and CoilPlayer clear what they started. k-th step instants under speed updates, "
+             "token substitution and concurrent shows on one light are not decided.",
+        technique="expression-shape and CFG dominance on the step path; loop-account guards; key-agreement between register and clear sites",
+        ref="4/C17"),
+    "C18": dict(
+        text="Static analysis of structural necessary conditions of logic blocks: in Counter.count, Accrual.hit, "
+             "Accrual.event_advance_random and Sequence.hit every state store, hit-event post and completion is dominated by "
+             "the enabled guard; complete() runs only when not completed, marks completed before posting the completion "
+             "events, cancels the timeout on every path, then resets and then disables under their config flags, and is "
+             "called exactly under each block's goal test; entering the multiple-hit window always arms a delay of "
+             "multiple_hit_window ms that calls stop_ignoring_hits, hits inside the window neither count nor post, and no "
+             "method of the block clears all delays or removes the window's delay; the hit value's sign is normalised "
+             "against the direction, an accepted hit adds it once, completion compares >= (up) / <= (down); a sequence "
+             "advances by one only for the current step, an accrual records and reports a step on its first hit; the block "
+             "timeout is armed on enable/reset, cancelled on disable/complete and resets the block. The counting equation "
+             "over histories and timeout races are not decided.",
+        technique="CFG guard dominance; must-pass pairing of window entry/exit; who-may-cancel a named delay; unit inference",
+        ref="4/C18"),
 }
